@@ -11,6 +11,7 @@ import (
 	"encoding/json"
 	"fmt"
 	"os"
+	"os/exec"
 	"path/filepath"
 	"sort"
 	"strings"
@@ -56,7 +57,8 @@ func value(k int, col string, c sq.Col) string {
 	return fmt.Sprintf("'r%d%s'", k, col)
 }
 
-func populate(db *sql.DB, st sq.State) error {
+// also (optional): a second state whose foreign-key columns get referencing values too (the CLI verifies foreign keys after applying).
+func populate(db *sql.DB, st sq.State, also ...sq.State) error {
 	if _, err := db.Exec("PRAGMA foreign_keys = off"); err != nil {
 		return err
 	}
@@ -69,6 +71,13 @@ func populate(db *sql.DB, st sq.State) error {
 		fkcol := map[string]bool{}
 		for _, g := range t.Fks {
 			fkcol[g.Col] = true
+		}
+		for _, o := range also {
+			for _, g := range o[tn].Fks {
+				if c, ok := t.Cols[g.Col]; ok && c.Type == "INT" {
+					fkcol[g.Col] = true
+				}
+			}
 		}
 		for k := 1; k <= 3; k++ {
 			var cols, vals []string
@@ -267,6 +276,108 @@ func one(id int, p pair, dir string) (o obs) {
 	return
 }
 
+// oneCLI repeats the flow of one() through the real CLI binary (VERIF_ATLAS): the desired state is created on a second database,
+// exported with `schema inspect` (HCL) and applied to the populated current database with `schema apply --auto-approve`; the diff
+// afterwards comes from `schema diff`. Projection and rows are read by the harness, as in one().
+func oneCLI(id int, p pair, dir string) (o obs) {
+	o = obs{ID: id, From: sq.Canon(p.From), To: sq.Canon(p.To), After: sq.State{}, Undone: sq.State{}, Before: map[string][]row{}, Rows: map[string][]row{}}
+	atlas := os.Getenv("VERIF_ATLAS")
+	base := filepath.Join(dir, fmt.Sprintf("cli%d", id))
+	os.MkdirAll(base, 0o755)
+	defer os.RemoveAll(base)
+	mk := func(name string, st sq.State, fill bool) (string, bool) {
+		path := filepath.Join(base, name)
+		db, err := sql.Open("sqlite3", "file:"+path+"?_fk=1")
+		if err != nil {
+			o.Skipped = err.Error()
+			return "", false
+		}
+		defer db.Close()
+		db.SetMaxOpenConns(1)
+		for _, s := range sq.DDL(st) {
+			if _, err := db.Exec(s); err != nil {
+				o.Skipped = "engine rejects the state: " + s + ": " + err.Error()
+				return "", false
+			}
+		}
+		got, err := sq.Project(db)
+		if err != nil || !equalState(got, st) {
+			o.Skipped = "projection of a created state differs from the model state (harness inconsistency)"
+			return "", false
+		}
+		if fill {
+			if err := populate(db, st, p.To); err != nil {
+				o.Skipped = "populate: " + err.Error()
+				return "", false
+			}
+			if o.Before, err = readRows(db, st); err != nil {
+				o.Skipped = "rows: " + err.Error()
+				return "", false
+			}
+		}
+		return path, true
+	}
+	cur, ok := mk("cur.db", p.From, true)
+	if !ok {
+		return
+	}
+	des, ok := mk("des.db", p.To, false)
+	if !ok {
+		return
+	}
+	run := func(args ...string) (string, error) {
+		cmd := exec.Command(atlas, args...)
+		cmd.Env = append(os.Environ(), "ATLAS_NO_UPGRADE_SUGGESTIONS=1", "ATLAS_NO_UPDATE_NOTIFIER=1", "TMPDIR="+base, "HOME="+base)
+		cmd.Dir = base
+		b, err := cmd.CombinedOutput()
+		return string(b), err
+	}
+	hcl, err := run("schema", "inspect", "--url", "sqlite://"+des)
+	if err != nil {
+		o.Skipped = "schema inspect of the desired database: " + hcl
+		return
+	}
+	hp := filepath.Join(base, "desired.hcl")
+	os.WriteFile(hp, []byte(hcl), 0o644)
+	out, err := run("schema", "apply", "--url", "sqlite://"+cur+"?_fk=1", "--to", "file://"+hp, "--dev-url", "sqlite://dev?mode=memory", "--auto-approve")
+	o.Stmts = []string{out}
+	if err != nil {
+		if strings.Contains(out, "foreign key mismatch") {
+			// the rows do not satisfy a foreign key of the desired state (e.g. NULLs replaced by a default without parent): the CLI
+			// verifies foreign keys after applying and refuses - outside C01's domain
+			o.Skipped = "rows violate a desired foreign key; refused by the CLI's foreign-key verification"
+			return
+		}
+		o.Err = "schema apply: " + out
+		return
+	}
+	db, err := sql.Open("sqlite3", "file:"+cur+"?_fk=1")
+	if err != nil {
+		o.Err = err.Error()
+		return
+	}
+	defer db.Close()
+	if o.After, err = sq.Project(db); err != nil {
+		o.Err = "projection after: " + err.Error()
+		return
+	}
+	o.After = sq.Canon(o.After)
+	if o.Rows, err = readRows(db, o.After); err != nil {
+		o.Err = "rows after: " + err.Error()
+		return
+	}
+	out, err = run("schema", "diff", "--from", "sqlite://"+cur, "--to", "file://"+hp, "--dev-url", "sqlite://dev?mode=memory")
+	if err != nil {
+		o.Err = "schema diff: " + out
+		return
+	}
+	if !strings.Contains(out, "Schemas are synced") {
+		o.Second = 1
+		o.Second2 = []string{out}
+	}
+	return
+}
+
 func main() {
 	f, err := os.Open(os.Args[1])
 	if err != nil {
@@ -295,6 +406,17 @@ func main() {
 		pairs = append(pairs, p)
 	}
 	res := make([]obs, len(pairs))
+	var every int
+	fmt.Sscan(os.Getenv("VERIF_CLI_EVERY"), &every)
+	var cliIdx []int
+	if every > 0 && os.Getenv("VERIF_ATLAS") != "" {
+		for i := range pairs {
+			if i%every == every/2 {
+				cliIdx = append(cliIdx, i)
+			}
+		}
+	}
+	cres := make([]obs, len(cliIdx))
 	var wg sync.WaitGroup
 	ch := make(chan int)
 	for w := 0; w < workers; w++ {
@@ -311,6 +433,41 @@ func main() {
 	}
 	close(ch)
 	wg.Wait()
+	if len(cliIdx) > 0 {
+		ch2 := make(chan int)
+		for w := 0; w < workers; w++ {
+			wg.Add(1)
+			go func() {
+				defer wg.Done()
+				for k := range ch2 {
+					cres[k] = oneCLI(k+1, pairs[cliIdx[k]], dir)
+				}
+			}()
+		}
+		for k := range cliIdx {
+			ch2 <- k
+		}
+		close(ch2)
+		wg.Wait()
+		cf, _ := os.Create(os.Args[2] + ".cli")
+		cw := bufio.NewWriterSize(cf, 1<<20)
+		cff, _ := os.Create(os.Args[2] + ".cli.full")
+		cwf := bufio.NewWriterSize(cff, 1<<20)
+		for _, o := range cres {
+			b, _ := json.Marshal(o)
+			cwf.Write(b)
+			cwf.WriteByte('\n')
+			lean := o
+			lean.Stmts, lean.Down, lean.Second2 = nil, nil, nil
+			b, _ = json.Marshal(lean)
+			cw.Write(b)
+			cw.WriteByte('\n')
+		}
+		cw.Flush()
+		cf.Close()
+		cwf.Flush()
+		cff.Close()
+	}
 	of, _ := os.Create(os.Args[2])
 	w := bufio.NewWriterSize(of, 1<<20)
 	ff, _ := os.Create(os.Args[2] + ".full")
